@@ -245,7 +245,8 @@ class GroundedPrecondition:
         )
         is_applicable = True
         extended_parameter_map = {**self._parameter_map}
-        for obj_name, obj in problem_objects.items():
+        # the domain's constants are objects of every problem.
+        for obj_name, obj in {**problem_objects, **self.domain.constants}.items():
             if not obj.type.is_sub_type(condition.quantified_type):
                 continue
 
